@@ -448,6 +448,15 @@ def check_voxel(case, ctx):
     if not ctx.check(len(grid) == len(filled) and len(grid) > 0, 'voxel/length', 'len(grid)=%d len(filled)=%d' % (len(grid), len(filled)),
                      what='voxel-cover'):
         return
+    if not cubes:
+        # grid_size voxels per axis (one where the box is flat): filled reshapes to grid_size, no two layers a rounding error apart
+        per_axis = [len(set(v[0][ax] for v in grid)) for ax in range(3)]
+        emax = max(bb[1][ax] - bb[0][ax] for ax in range(3))
+        # (an extent of a few ulps - a planar rational surface - is flat for every practical purpose: that axis is not judged)
+        exp_axis = [gs[ax] if bb[1][ax] - bb[0][ax] > 1e-9 * emax else 1 if bb[1][ax] == bb[0][ax] else per_axis[ax] for ax in range(3)]
+        nearflat = any(0.0 < bb[1][ax] - bb[0][ax] <= 1e-9 * emax for ax in range(3))
+        ctx.check(per_axis == exp_axis and (nearflat or len(grid) == exp_axis[0] * exp_axis[1] * exp_axis[2]), 'voxel/grid-count',
+                  'voxelize(grid_size=%r): %r voxel layers per axis, %d voxels (bounding box %r)' % (gs, per_axis, len(grid), bb), what='voxel-cover')
     # the grid covers the bounding box: per axis the union of voxel extents contains [bbmin, bbmax]
     for ax in range(3):
         lo = min(v[0][ax] for v in grid)
